@@ -127,6 +127,9 @@ L2_BULK_HEAP = [RP + n for n in ["toBSet_heapOr", "wf_heapOr", "toBSet_heapXor",
 L2_BULK_ARR = [RP + n for n in ["toArray_spec", "toArray_length", "toExistingArray_spec", "stats_spec"]] + ["RModel.Impl.Cont.fill_spec"]
 L2_CKSUM = ["RModel.Impl.Rep." + n for n in ["checksum_congr", "checksum_clone", "checksum_cloneSrc", "checksum_asDecoded",
                                               "checksum_roundtrip", "checksum_frozenOf", "checksum_frozen_roundtrip"]]
+C13_OWNS = {"frz", "frzsmall", "frzwfail", "fview", "fdec", "fspec", "fchk", "fgc", "wf", "dig", "eq", "card", "toarr"}
+FROZEN_WRITES = {"add", "cadd", "rem", "crem", "addmany", "addr", "remr", "flip", "iand", "ior", "ixor", "iandnot", "opt", "clear", "clone",
+                 "and", "or", "xor", "andnot", "has", "rank", "sel", "min", "max"}
 C16_OWNS = {"off", "off32", "sflip", "eq", "dense", "fromdense", "frombitset", "densechk", "dig",
             "zdense", "zfromdense", "safe", "digall", "zdetach", "zsame", "l2off", "l2sflip", "l2dense", "l2fromdense"}
 
@@ -160,8 +163,10 @@ PROPS = {
             "modules": DEFAULT_MODULES + [FACTS, "RProofs.Properties.C06"], "owns": {"spec", "ser", "card", "toarr"}},
     # C07 also rides on the aggregate suites, where it owns "the operands and the caller's slice are left alone": a line whose
     # result digest is right but whose operand digests / slice verdict differ (a wrong result is C11's)
-    "C07": {"suites": [("alias", 1.0), ("agg", 0.5)], "modules": ["RProofs.Heap"], "corpus": ["corpus/C07/failed-read-into-cow-clone.txt"],
-            "owns_fn": lambda op, mm, suite: ("agg" not in suite) or (op in AGG_OPS | {"dig"} and
+    "C07": {"suites": [("alias", 1.0), ("agg", 0.5), ("r64", 0.3)], "modules": ["RProofs.Heap"], "corpus": ["corpus/C07/failed-read-into-cow-clone.txt"],
+            # 64-bit counterparts: in the `r64` suite only the sharing observations are this property's (`alias64`: a bucket reachable from two
+            # objects must be flagged in both; `dig64`: an input re-observed after its result was edited)
+            "owns_fn": lambda op, mm, suite: (op in ("alias64", "dig64")) if suite.split(":")[-1] == "r64" else ("agg" not in suite) or (op in AGG_OPS | {"dig"} and
             mm.get("expected", "").split(" ")[:1] == mm.get("got", "").split(" ")[:1] and not mm.get("got", "").startswith("panic")),
             "theorems": ["RModel.Impl.safe_nil", "RModel.Impl.safe_iff", "RModel.Impl.safe_unflagged_private",
                          "RModel.Impl.safe_gate", "RModel.Impl.safe_cloneBitmap", "RModel.Impl.safe_appendCopy",
@@ -204,7 +209,9 @@ PROPS = {
             "theorems": ["RModel.Impl.freeze_length", "RModel.Impl.frozenView_freeze", "RModel.Impl.frozenView_no_panic",
                          "RModel.FrozenSpec.frozenSpec_freeze", "RModel.BSet.canon_ext", "RModel.Facts.frozenCookie_spec"],
             "modules": DEFAULT_MODULES + [FACTS, "RProofs.Properties.C13", "RProofs.Properties.C13Spec"],
-            "owns": {"frz", "frzsmall", "frzwfail", "fview", "fdec", "fspec", "fchk", "fgc", "wf", "dig", "eq", "card", "toarr"}},
+            # in the `frozen` suite every mutation is a write on a frozen view (or on a bitmap derived from one): "supports all read and
+            # (copying) write operations" makes their outcome this property's
+            "owns_fn": lambda op, mm, suite: op in C13_OWNS or (suite.split(":")[-1] == "frozen" and op in FROZEN_WRITES)},
     "C14": {"suites": [("hist", 1.0), ("alg", 0.7), ("xform", 0.5), ("thresh", 0.5), ("sizeb", 1.0), ("agg", 0.5)],
             "theorems": ["RModel.Impl.readme_bound", "RModel.Impl.bound_function", "RModel.Facts.boundSerializedSizeInBytes_spec",
                          "RModel.BSet.canon_ext"] + F_SERIAL,
